@@ -233,11 +233,24 @@ STATED_RAW = {
 METHODS = [('getClient', 'get_client'), ('newClient', 'new_client'), ('setSnapshot', 'set_snapshot'), ('getSnapshotData', 'get_snapshot_data'),
            ('getByParent', 'get_version_by_parent'), ('getVersion', 'get_version'), ('addVersion', 'add_version')]
 
+def inline_str_consts(src):
+    """`const NAME: &str = "…";` / `static NAME: &'static str = "…";` at any level: every other occurrence of NAME is replaced by
+    the literal (binding a statement text to a constant does not change what is sent to SQLite)"""
+    decl = re.compile(r'(?:pub(?:\([^)]*\))?\s+)?(?:const|static)\s+([A-Z][A-Z0-9_]*)\s*:\s*&\s*(?:\'static\s+)?str\s*=\s*("(?:[^"\\]|\\.)*")\s*;', re.S)
+    consts = {m.group(1): m.group(2) for m in decl.finditer(src)}
+    if not consts:
+        return src
+    src = decl.sub('', src)
+    for name, lit in consts.items():
+        src = re.sub(r'\b' + name + r'\b', lambda _m, lit=lit: lit, src)
+    return src
+
 def extract():
     res, raw, source = {}, {}, {}
     try:
         src = strip_tests(open(os.path.join(REPO, 'sqlite/src/lib.rs')).read())
         src = re.sub(r'//[^\n]*', '', src)
+        src = inline_str_consts(src)
     except Exception as e:
         src = ''
     impl_info = None
